@@ -270,4 +270,133 @@ theorem Compose_write_read (lower : Bytes → Bytes) (cv : Conv) (cfg : C01.Cfg)
     refine List.mem_map.2 ⟨r, hr, ?_⟩
     rw [Option.some.inj hd', ← Except.ok.inj hs, ← hru']
 
+/-! ### non-vacuity: a concrete history and query on which every hypothesis above holds
+
+Schema: an integer index on `n`, a case-insensitive string index on the nested path `nest.s`; file backend.
+History: insert `u1`, `u2` (node ids 2, 3) · update `u2` changing the indexed `n` from −3 to 7 (an unknown id
+is skipped) · delete `u1` (node id 2 is freed) · insert `u3`, which REUSES node id 2. -/
+
+section examples
+
+def exSchema : List (List String × C02.Kind) := [(["n"], .int), (["nest", "s"], .str false)]
+
+/-- the two readers of a stored value, on the five value texts of the example -/
+def exConv : Conv where
+  idx := fun s =>
+    if s = "5" then .int 5#64 else if s = "7" then .int 7#64 else if s = "-3" then .int (BitVec.ofInt 64 (-3))
+    else if s = "{s:A}" then .map [("s", .str [0x41#8])] else .nil
+  sel := fun s =>
+    if s = "5" then .int 64 5#64 else if s = "7" then .int 64 7#64 else if s = "-3" then .int 64 (BitVec.ofInt 64 (-3))
+    else if s = "{s:A}" then .map [("s", .str [0x41#8])] else .nil
+
+def exCfg : C01.Cfg := { maxSize := 2, size := fun d => d.length }
+def o0 : C01.Oracle := {}
+
+def exHist : List (C01.Op × C01.Oracle) :=
+  [ (.insert [("u1", some [("n", "5"), ("nest", "{s:A}")]), ("u2", some [("n", "-3")])], o0),
+    (.update [("u2", some [("n", "7")]), ("zz", some [("n", "5")])], o0),
+    (.delete ["u1"], o0),
+    (.insert [("u3", some [("n", "5")])], o0) ]
+
+def exInit : State := State.init exSchema true
+def exFinal : State := (State.run C02.exLower exConv exCfg exInit exHist).1
+
+/-- `(n ≥ 5 AND (_id = u3 OR nest.s = "a")) OR _id = u2` -/
+def exQuery : C02.Query :=
+  .or (.cons
+    (.and (.cons (.leaf (.int ["n"] .ge 5#64 0#64))
+      (.cons (.or (.cons (.leaf (.idEq "u3")) (.cons (.leaf (.str ["nest", "s"] .equals [0x61#8] [])) .nil))) .nil)))
+    (.cons (.leaf (.idEq "u2")) .nil))
+
+def answerUuids : Answer → Option (List Uuid)
+  | .rows l => some (l.map (·.1))
+  | _ => none
+
+/-- the point store after the history: `u3` sits under the reused node id 2 -/
+example : exFinal.shard =
+    { pts := { nI := [(3, "u2"), (2, "u3")], nD := [(3, [("n", "7")]), (2, [("n", "5")])], pI := [("u2", 3), ("u3", 2)] },
+      count := some 2, free := some [], next := some 4 } := by decide
+example : (State.run C02.exLower exConv exCfg exInit exHist).2 = [.ok, .updated ["u2"], .deleted ["u1"], .ok] := by decide
+/-- the integer bucket holds the postings 5 ↦ {2}, 7 ↦ {3}; the string bucket is empty again -/
+example : exFinal.idxs.map (fun ix => ix.kv.entries.map fun e => C02.decSet e.2) = [[[2#64], [3#64]], []] := by decide
+/-- … and after the first batch it held 5 ↦ {2}, −3 ↦ {3} and "a" ↦ {2} -/
+example : (State.run C02.exLower exConv exCfg exInit (exHist.take 1)).1.idxs.map
+    (fun ix => ix.kv.entries.map fun e => C02.decSet e.2) = [[[3#64], [2#64]], [[2#64]]] := by decide
+
+private theorem exNoFlt {st : State} (h : st.schema = exSchema) : ∀ ix ∈ st.idxs, ix.kind ≠ .flt := by
+  intro ix hix hk
+  have : (ix.path, ix.kind) ∈ st.schema := List.mem_map.2 ⟨ix, hix, rfl⟩
+  rw [h, hk] at this
+  simp [exSchema] at this
+
+/-- the hypothesis `HistOK` of `Compose_inv_history` / `Compose_filter_exact` holds for this history … -/
+example : HistOK C02.exLower exConv exCfg exInit exHist := by
+  have s0 : exInit.schema = exSchema := init_schema _ _
+  have s1 := (step_schema C02.exLower exConv exCfg exInit exHist[0].1 exHist[0].2).trans s0
+  have s2 := (step_schema C02.exLower exConv exCfg _ exHist[1].1 exHist[1].2).trans s1
+  have s3 := (step_schema C02.exLower exConv exCfg _ exHist[2].1 exHist[2].2).trans s2
+  exact ⟨⟨by decide, fun pc _ ix hix hk => absurd hk (exNoFlt s0 ix hix)⟩,
+    ⟨by decide, fun pc _ ix hix hk => absurd hk (exNoFlt s1 ix hix)⟩,
+    ⟨by decide, fun pc _ ix hix hk => absurd hk (exNoFlt s2 ix hix)⟩,
+    ⟨by decide, fun pc _ ix hix hk => absurd hk (exNoFlt s3 ix hix)⟩, trivial⟩
+
+/-- … the query is well formed and valid … -/
+example : exQuery.wf (exFinal.view exConv) = true := by decide
+example : exQuery.Valid :=
+  (C02.Query.valid_or _).2 ((C02.QList.valid_cons _ _).2 ⟨(C02.Query.valid_and _).2 ((C02.QList.valid_cons _ _).2
+    ⟨(C02.Query.valid_leaf _).2 (C02.Leaf.valid_int ..), (C02.QList.valid_cons _ _).2 ⟨(C02.Query.valid_or _).2
+      ((C02.QList.valid_cons _ _).2 ⟨(C02.Query.valid_leaf _).2 (C02.Leaf.valid_idEq _), (C02.QList.valid_cons _ _).2
+        ⟨(C02.Query.valid_leaf _).2 (C02.Leaf.valid_str ..), C02.QList.valid_nil⟩⟩), C02.QList.valid_nil⟩⟩),
+    (C02.QList.valid_cons _ _).2 ⟨(C02.Query.valid_leaf _).2 (C02.Leaf.valid_idEq _), C02.QList.valid_nil⟩⟩)
+
+/-- … and the whole pipeline answers `u3` (node id 2) before `u2` (node id 3): ascending node id, not
+insertion order -/
+example : answerUuids (searchPoints C02.exLower exConv exFinal exQuery ⟨[["*"]], [], 0, 0⟩ id) = some ["u3", "u2"] := by
+  decide
+/-- the same query on the reference map, document by document -/
+example : specMatches C02.exLower exConv exSchema (C01.abs exFinal.shard) exQuery "u3" :=
+  ⟨some [("n", "5")], by decide, Or.inl ⟨⟨rfl, 5#64, by decide, by decide⟩, Or.inl rfl, trivial⟩⟩
+/-- sorted by `n` descending, second page of size one: `u3` -/
+example : answerUuids (searchPoints C02.exLower exConv exFinal exQuery ⟨[["n"]], [⟨["n"], true⟩], 1, 1⟩
+    (C06.isort fun a b => C06.sortCmp [⟨["n"], true⟩] a.data b.data)) = some ["u3"] := by decide
+/-- the sorter of the previous example satisfies the hypotheses on `rowSorter` -/
+example : (∀ l : List (C06.Row Unit), (C06.isort (fun a b => C06.sortCmp [⟨["n"], true⟩] a.data b.data) l).Perm l) ∧
+    ∀ l : List (C06.Row Unit), (C06.isort (fun a b => C06.sortCmp [⟨["n"], true⟩] a.data b.data) l).Pairwise
+      (fun a b => C06.sortCmp [⟨["n"], true⟩] a.data b.data ≤ 0) :=
+  ⟨fun l => C06.isort_perm _ l,
+   fun l => C06.isort_sorted (c := fun (a b : C06.Row Unit) => C06.sortCmp [⟨["n"], true⟩] a.data b.data)
+     ⟨fun a b => (C06.tpc_sortCmp _).antisymm a.data b.data, fun a b c => (C06.tpc_sortCmp _).trans a.data b.data c.data⟩ l⟩
+
+/-- the single row of an answer: its uuid and the integer it returns under key `k` -/
+def singleRow (a : Answer) (k : String) : Option (Uuid × BitVec 64) :=
+  match a with
+  | .rows [(u, d)] => (match C06.lookup d k with | some (.int _ x) => some (u, x) | _ => none)
+  | _ => none
+
+/-- write then read (`Compose_write_read`): the `_id` lookup after the update returns the merged document -/
+example : singleRow (searchPoints C02.exLower exConv (State.run C02.exLower exConv exCfg exInit (exHist.take 2)).1
+      (.leaf (.idAny ["u2", "nope"])) ⟨[["*"]], [], 0, 0⟩ id) "n" = some ("u2", 7#64) := by decide
+
+/-- rejected batches (`Compose_rejected_noop`): an integer-indexed property holding a map, a stored id, a
+repeated id, an oversized merge — each is refused … -/
+example : ((exFinal.step C02.exLower exConv exCfg (.insert [("u9", some [("n", "{s:A}")])]) o0).2 = .rejected .index) ∧
+    ((exFinal.step C02.exLower exConv exCfg (.insert [("u9", some []), ("u2", some [])]) o0).2 = .rejected .exists_) ∧
+    ((exFinal.step C02.exLower exConv exCfg (.insert [("u9", some []), ("u9", some [])]) o0).2 = .rejected .dupInBatch) ∧
+    ((exFinal.step C02.exLower exConv exCfg (.update [("u2", some [("a", "5"), ("b", "5")])]) o0).2 = .rejected .tooLarge) := by
+  decide
+/-- … and leaves the state as it was -/
+example : (exFinal.step C02.exLower exConv exCfg (.insert [("u9", some [("n", "{s:A}")])]) o0).1 = exFinal :=
+  (Compose_rejected_noop C02.exLower exConv exCfg exFinal (run_inv C02.exLower exConv exCfg exHist exInit
+    (init_inv _ _ _ _) (by
+      have s0 : exInit.schema = exSchema := init_schema _ _
+      have s1 := (step_schema C02.exLower exConv exCfg exInit exHist[0].1 exHist[0].2).trans s0
+      have s2 := (step_schema C02.exLower exConv exCfg _ exHist[1].1 exHist[1].2).trans s1
+      have s3 := (step_schema C02.exLower exConv exCfg _ exHist[2].1 exHist[2].2).trans s2
+      exact ⟨⟨by decide, fun pc _ ix hix hk => absurd hk (exNoFlt s0 ix hix)⟩,
+        ⟨by decide, fun pc _ ix hix hk => absurd hk (exNoFlt s1 ix hix)⟩,
+        ⟨by decide, fun pc _ ix hix hk => absurd hk (exNoFlt s2 ix hix)⟩,
+        ⟨by decide, fun pc _ ix hix hk => absurd hk (exNoFlt s3 ix hix)⟩, trivial⟩)).store _ o0).1 .index (by decide)
+
+end examples
+
 end Sema.Compose
